@@ -16,6 +16,7 @@ the stack (bounded by MAX_UNDO) predicts can_undo_redo(), the labels and when
 undo/redo must raise IndexError.  A history stops at its first violation.
 """
 import itertools
+import re
 
 from glue.core import DataCollection
 from glue.core import command as gcmd
@@ -31,6 +32,8 @@ from vf.lib_C06_world import (MODES, STATE_VARIANTS, Names, build_state, diff_fi
 ID = "C13"
 LEVEL = "exploration"
 BUDGET_S = {"quick": 30.0, "thorough": 480.0}
+AUTO_LABELS_UP_TO_RENUMBERING = True   # 'Subset N' / N-th colour of a group re-created by redo: compared up to renumbering
+AUTO_LABEL = re.compile(r"^Subset \d+$")
 DATASET_ORDER_IS_STATE = True    # RemoveData.undo re-appends at the end; set False to tolerate order-only differences
 RULE = ("cases are (set-up, history) pairs: set-up = one of 5 session states (empty / data only / one edited group / two groups, "
         "one edited, AND mode / two groups both edited, OR mode); history = tokens over do(AddData|RemoveData|ApplySubsetState with "
@@ -42,12 +45,16 @@ RULE = ("cases are (set-up, history) pairs: set-up = one of 5 session states (em
         "non-trivial when at least one compared undo/redo belonged to a command that changed the snapshot; distinct = distinct "
         "(set-up, history) fingerprints.")
 ASSUMPTIONS = ["the snapshot (datasets, groups in order, member masks, subsets per dataset, edit subset, mode) is the session state the "
-               "statement names; labels and styles are compared only for groups that survive as the same object, because a group "
-               "re-created by redo legitimately gets the next automatic label and colour",
+               "statement names; labels and styles are compared exactly for groups that survive as the same object (identity through "
+               "kept references); a group re-created by redo must agree in everything except the number in its automatic label "
+               "'Subset N' and the N-th default colour, which DataCollection hands out from a monotone, session-persistent counter "
+               "(switch AUTO_LABELS_UP_TO_RENUMBERING)",
                "dataset order is part of 'the data collection' (switch DATASET_ORDER_IS_STATE); it is compared separately so that an "
                "order-only difference never hides or causes another signature",
-               "when the user changed mode / edit subset between a command and its undo, those two fields are not compared for that "
-               "undo and the matching redo is not compared at all (redo re-executes with the current mode); both are counted",
+               "an undo is compared when it starts from the state recorded after the do/redo (if that differs only in mode / edit "
+               "subset because the user changed them, the other fields are still compared); a redo is compared only when it starts "
+               "from exactly the state recorded before the do (redo re-executes under the current mode / edit subset), otherwise "
+               "the command's recorded states are re-based like a fresh do; every skipped comparison is counted",
                "the documented bound of the undo history is glue.core.command.MAX_UNDO (50)",
                "undo/redo with nothing to undo/redo must raise IndexError (docstring) and change nothing"]
 ANCHORS = ["glue.core.command:CommandStack.do", "glue.core.command:CommandStack.undo", "glue.core.command:CommandStack.redo",
@@ -214,7 +221,7 @@ class World:
                 self.info["step"] = "do"
                 self.r_do(cmd)
                 after = self.snap()
-                ent = {"cmd": type(cmd).__name__, "obj": cmd, "B": before, "A": after, "taint": False, "serial": self.serial,
+                ent = {"cmd": type(cmd).__name__, "obj": cmd, "B": before, "A": after, "partial": False, "serial": self.serial,
                        "created_group": len(after[0]["groups"]) > len(before[0]["groups"]),
                        "changed": after[0] != before[0] or after[1]["dataset_order"] != before[1]["dataset_order"],
                        "name": tok[1] if op in ("add", "rem") else None}
@@ -271,8 +278,11 @@ class World:
                     ent["redone"] = ent.get("redone", 0) + 1
                     ent["serial"] = self.serial
                     ent["created_group"] = len(after[0]["groups"]) > len(before[0]["groups"])
-                    if ent["taint"]:
-                        ent["A"] = after      # re-executed under another mode / edit subset: this is the state the next undo starts from
+                    if ent.pop("rebase", False):
+                        # re-executed from a state other than the recorded one (the user changed mode / edit subset on the way):
+                        # like a fresh do, this is the pair of states the next undo / redo of this command refers to
+                        ent["B"], ent["A"] = before, after
+                        ent["changed"] = after[0] != before[0] or after[1]["dataset_order"] != before[1]["dataset_order"]
             elif op == "set_mode":
                 self.mode.mode = MODES[tok[1]]
                 self.cur = self.snap()
@@ -299,8 +309,6 @@ class World:
         self.check_stack(op)
 
     def taint(self):
-        for ent in self.m_done + self.m_undone:
-            ent["taint"] = True
         self.flags.add("user_changed_mode_or_edit_subset_mid_history")
 
     def check_stack(self, op):
@@ -318,13 +326,24 @@ class World:
     def compare(self, op, ent, before, after):
         ctx = self.ctx
         want = ent["B"] if op == "undo" else ent["A"]
+        # precondition of the statement: the step starts from the state recorded after the do (undo) / before it (redo).
+        # It can only fail because the user changed mode / edit subset on the way (every earlier step was compared).
         ignore = ()
-        if ent["taint"]:
+        start_diff = diff_fields(before[0], (ent["A"] if op == "undo" else ent["B"])[0])
+        ent["partial"] = False
+        if start_diff:
             if op == "redo":
-                ctx.count("redo_not_compared_user_changed_mode_or_edit_subset")
+                # redo re-executes the command under the current mode / edit subset: nothing can be demanded; re-base
+                ctx.count("redo_not_compared_state_before_differs_from_recorded")
+                ent["rebase"] = True
                 return
-            ignore = ("edit_subset", "mode")
-            ctx.count("undo_compared_without_edit_subset_and_mode")
+            if set(start_diff) <= {"edit_subset", "mode"}:
+                ignore = ("edit_subset", "mode")
+                ent["partial"] = True
+                ctx.count("undo_compared_without_edit_subset_and_mode")
+            else:
+                ctx.count("undo_not_compared_state_before_differs_from_recorded")
+                return
         self.comparisons += 1
         ctx.count("compared_" + op)
         ctx.count("compared_%s_%s" % (op, ent["cmd"]))
@@ -345,7 +364,7 @@ class World:
             mc = mask_changes(after[0], want[0])
             n_want = len(want[0]["groups"])
             surplus = after[0]["groups"][n_want:]
-            base = {"user_changed_mode_or_edit_subset_since": ent["taint"], "cmd_was_redone": bool(ent.get("redone"))}
+            base = {"user_changed_mode_or_edit_subset_since": ent["partial"], "cmd_was_redone": bool(ent.get("redone"))}
             detail = {"expected": want[0], "observed": after[0], "mask_changes": mc[:6], "all_differing_fields": diff,
                       "do_changed_nothing_observable": not ent["changed"]}
             if "group_listing" in diff and "member_masks" in diff:
@@ -368,15 +387,30 @@ class World:
                     keys["extra"] = bool(set(after[0]["datasets_sorted"]) - set(want[0]["datasets_sorted"]))
                 self.fail(op + "_mismatch", keys, detail, stop=False)
             raise Stop()
-        # labels / styles of groups that survived as the same object
+        # labels / styles: exact for groups that survived as the same object (identity through the kept objects); a group
+        # re-created by redo must agree up to the renumbering of its automatic label / colour (see notes/C13.md)
         wl, al = want[1], after[1]
-        for i, (ga, gb) in enumerate(zip(al["group_ids"], wl["group_ids"])):
-            if ga == gb:
+        for i, (ga, gb) in enumerate(zip(al["group_objs"], wl["group_objs"])):
+            if ga is gb:
+                ctx.count("surviving_group_label_and_style_compared")
                 if al["labels"][i] != wl["labels"][i] or al["styles"][i] != wl["styles"][i]:
                     self.fail(op + "_changed_label_or_style_of_surviving_group", {}, {"expected": [wl["labels"][i], wl["styles"][i]],
                                                                                       "observed": [al["labels"][i], al["styles"][i]]})
+                continue
+            auto = AUTO_LABEL.match(str(wl["labels"][i])) and AUTO_LABEL.match(str(al["labels"][i]))
+            same_label = al["labels"][i] == wl["labels"][i]
+            same_colour = al["styles"][i][0] == wl["styles"][i][0]
+            if al["styles"][i][1:] != wl["styles"][i][1:] or (not same_label and not auto):
+                self.fail(op + "_mismatch", {"field": "label_or_style_of_recreated_group", "label_differs": not same_label,
+                                             "both_labels_automatic": bool(auto)},
+                          {"expected": [wl["labels"][i], wl["styles"][i]], "observed": [al["labels"][i], al["styles"][i]]})
+            if same_label and same_colour:
+                ctx.count("recreated_group_label_and_colour_equal")
+            elif AUTO_LABELS_UP_TO_RENUMBERING:
+                ctx.count("recreated_group_automatic_label_or_colour_renumbered")
             else:
-                ctx.count("recreated_group_label_and_style_not_compared")
+                self.fail(op + "_mismatch", {"field": "automatic_label_or_colour_of_recreated_group"},
+                          {"expected": [wl["labels"][i], wl["styles"][i][0]], "observed": [al["labels"][i], al["styles"][i][0]]}, stop=False)
         # dataset order, compared on its own and only if it was as recorded just before this step
         start = ent["A"] if op == "undo" else ent["B"]
         if self.order_deviated or before[1]["dataset_order"] != start[1]["dataset_order"]:
